@@ -28,7 +28,7 @@ def impl_iface(modname, trait, methods):
     return f"impl {modname}::{trait} for Contract {{\n    type Error = StdError;\n{ms}\n}}\n"
 
 
-def program(what, expect, ifaces, contract_methods):
+def program(what, expect, ifaces, contract_methods, generic=False):
     marker = " //~ ERROR" if expect == "fail" else ""
     parts = [f"//@ props: C05\n//@ expect: {expect}\n//@ index: no\n//@ what: {what}\n#![allow(dead_code)]\n"
              "use sylvia::ctx::{ExecCtx, InstantiateCtx, QueryCtx, SudoCtx};\nuse sylvia::cw_std::{Response, StdError, StdResult};\n"
@@ -36,17 +36,29 @@ def program(what, expect, ifaces, contract_methods):
              "#[sylvia::cw_schema::cw_serde]\npub struct Resp {}\n\n"]
     for modname, trait, methods in ifaces:
         parts.append(iface(modname, trait, methods))
-    parts.append("pub struct Contract;\n\n")
-    for modname, trait, methods in ifaces:
-        parts.append(impl_iface(modname, trait, methods))
+    if generic:
+        # a generic contract that this crate never instantiates with concrete types: the overlap check must not wait for monomorphisation
+        parts.append("pub struct Contract<T> { _p: std::marker::PhantomData<T> }\n\n")
+        for modname, trait, methods in ifaces:
+            parts.append(impl_iface(modname, trait, methods).replace("for Contract {", "for Contract<T> {").replace("impl ", "impl<T> ", 1))
+    else:
+        parts.append("pub struct Contract;\n\n")
+        for modname, trait, methods in ifaces:
+            parts.append(impl_iface(modname, trait, methods))
     msgs = "\n".join(f"#[sv::messages({modname})]" for modname, _, _ in ifaces)
     cms = "\n".join(f"    #[sv::msg({k})]\n    fn {n}(&self, _ctx: {CTX[k]}) -> {RETC[k]} {{\n        {BODY[k]}\n    }}" for k, n in contract_methods)
+    head = "impl<T> Contract<T> where T: sylvia::types::CustomMsg + 'static {" if generic else "impl Contract {"
+    new_body = "Self { _p: std::marker::PhantomData }" if generic else "Self"
+    targ = ", _t: Option<T>" if generic else ""
+    if generic:
+        # the first contract method mentions T so that the contract's own message is generic too
+        cms = cms.replace(") -> ", f"{targ}) -> ", 1)
     parts.append(f"""
 #[contract]{marker}
 {msgs}
-impl Contract {{
+{head}
     pub const fn new() -> Self {{
-        Self
+        {new_body}
     }}
     #[sv::msg(instantiate)]
     fn instantiate(&self, _ctx: InstantiateCtx) -> StdResult<Response> {{
@@ -92,9 +104,29 @@ def main():
                   [("ia", "Ia", [("exec", "step2_go")])], [("exec", "step2_go")]))
     cases.append(("digit_pass", "pass", "twin of digit_fail: `step2_go` vs `step3_go` are different wire names",
                   [("ia", "Ia", [("exec", "step2_go")])], [("exec", "step3_go")]))
+    # declaration order must not matter to the scan: the colliding contract method declared AFTER one whose name sorts later, and before
+    for k in ("exec", "query", "sudo"):
+        cases.append((f"order_late_{k}_fail", "fail", f"contract declares `transfer` then `burn`; interface has `burn`, `mint` ({k})",
+                      [("ia", "Ia", [(k, "burn"), (k, "mint")])], [(k, "transfer"), (k, "burn")]))
+        cases.append((f"order_late_{k}_pass", "pass", f"twin of order_late_{k}_fail",
+                      [("ia", "Ia", [(k, "burn"), (k, "mint")])], [(k, "transfer"), (k, "burm")]))
+    cases.append(("order_iface_late_fail", "fail", "the interface declares the shared name after a later-sorting one (`mint`, `burn`), contract `zap`, `burn`, `aaa`",
+                  [("ia", "Ia", [("exec", "mint"), ("exec", "burn")])], [("exec", "zap"), ("exec", "burn"), ("exec", "aaa")]))
+    cases.append(("order_iface_late_pass", "pass", "twin of order_iface_late_fail",
+                  [("ia", "Ia", [("exec", "mint"), ("exec", "burn")])], [("exec", "zap"), ("exec", "burn2"), ("exec", "aaa")]))
+    gen_cases = []
+    for k in ("exec", "query", "sudo"):
+        gen_cases.append((f"generic_{k}_fail", "fail", f"generic contract never instantiated in this crate shares {k} `mint` with its interface",
+                          [("ia", "Ia", [(k, "mint")])], [(k, "mint"), (k, "own")]))
+        gen_cases.append((f"generic_{k}_pass", "pass", f"twin of generic_{k}_fail",
+                          [("ia", "Ia", [(k, "mint")])], [(k, "burn"), (k, "own")]))
     for name, expect, what, ifaces, cm in cases:
         with open(os.path.join(OUT, name + ".rs"), "w") as f:
             f.write(program(what, expect, ifaces, cm))
+    for name, expect, what, ifaces, cm in gen_cases:
+        with open(os.path.join(OUT, name + ".rs"), "w") as f:
+            f.write(program(what, expect, ifaces, cm, generic=True))
+    cases += gen_cases
     print(len(cases), "witness programs written to", os.path.normpath(OUT))
 
 
